@@ -503,7 +503,23 @@ Definition spec_class (c : c06case) : nat :=
        admissible caller data (checked pairwise by c06_tkeys_prefix_free below) *)
     let '(tbl, d) := class_table dt d in
     match nth_error tbl idx, go with
-    | Some kc, Ok tk => if body_okb kc d then match tk with x :: _ => if x =? kc_class kc then 0%nat else 10%nat | [] => 10%nat end else 0%nat
+    | Some kc, Ok tk =>
+      if body_okb kc d then
+        match tk with
+        | x :: _ =>
+          if negb (x =? kc_class kc) then 10%nat
+          else
+            (* a NewTKey-made key of instance 7 lies inside TKeyClassRange(its class) of instance 7 and outside
+               that of the neighbouring classes (ranges as the CRange cases tie them to the code) *)
+            let k := data_key 7 tk 1 0 n_MarkData in
+            let inr c := let r := tkey_class_range 7 c in lex_leb (fst r) k && lex_leb k (snd r) in
+            match kc_shape kc with
+            | KLegacy _ => 0%nat
+            | _ => if inr (kc_class kc) && negb (inr (kc_class kc + 1)) && negb (inr (kc_class kc - 1)) then 0%nat else 3%nat
+            end
+        | [] => 10%nat
+        end
+      else 0%nat
     | _, Panic => 1%nat
     | _, _ => 0%nat
     end
